@@ -17,7 +17,7 @@
 From Coq Require Import List Arith Bool NArith Ring.
 From Verif.lib Require Import FinSet.
 From Verif.C04 Require Import Model Proofs ProofsFun ProofsMesh.
-From Verif.C03 Require Import Model Proofs Proofs2 Proofs3 Proofs4.
+From Verif.C03 Require Import Model Proofs Proofs2 Proofs3 Proofs4 Proofs5 Proofs6.
 Import ListNotations.
 
 (* neighbours are complete: for every space st (no reachability needed), every level pair i < k (REPAIRED code:
@@ -175,7 +175,7 @@ Print Assumptions hassemble_entry_partial.
    fact for the C05 knot-insertion matrices (C05 works over knot functions nat -> Qc, no link to C04's integer tables yet);
    mesh_ok etc. follow from C04's hier_ok once that is discharged there.  Also NOT PROVED: that the sparse-matrix program
    assemble_hb (fancy indexing, sparse products, represent_fine) evaluates blk_entry; the COO stage of it is proved
-   (coo_merge_sums_duplicates, insert_block_entries, fancy_index_rows, fancy_index_columns below; sparse products, transpose, Kronecker product and the represent_fine loop are not), the rest is compared exactly on sampled entries of every history
+   (coo_merge_sums_duplicates, insert_block_entries, fancy_index_rows, fancy_index_columns, sm_mul_entry, sm_transpose_entry below: the kernels; the Kronecker product kron2, the represent_fine loop rf_loop/hstack and the chaining of the kernels through level_blocks with the canonical-index arithmetic -- hassemble_program_entry -- are not), the rest is compared exactly on sampled entries of every history
    of the correspondence run and on all entries of Examples.ex_sparse_program_is_entry_form (tests). *)
 
 (* Load vector (assemble_functional, HB): entry number offset_k + p is the entry of the level-k tensor-product load vector
@@ -252,3 +252,24 @@ Theorem hassemble_entry_reachable_partial : forall (R : Type) (r0 r1 : R) radd r
   = spec_entry R r0 radd rmul a (repc R r0 r1 radd rmul st pmat) (fun k => tp_functions (msh st k)) li fi lj fj.
 Proof. exact hassemble_entry_reachable_l. Qed.
 Print Assumptions hassemble_entry_reachable_partial.
+
+(* Sparse kernels of the program, entry semantics (any commutative ring).
+   sm_mul_entry: entry (i, j) of A @ B is the sum over the stored entries (m, a) of row i of A of a * B[m, j]; A arbitrary
+   (unsorted rows, duplicates allowed), the rows of B with strictly increasing columns (sv_sorted: what every kernel of the
+   model produces).  Proved through axpy_spec: y + c*x for sorted sparse vectors (values, sortedness, keys). *)
+Theorem sm_mul_entry : forall (R : Type) (r0 r1 : R) radd rmul rsub ropp,
+  ring_theory r0 r1 radd rmul rsub ropp eq ->
+  forall (A B : smat R) i j, rows_sorted R B ->
+  sm_get R r0 (sm_mul R radd rmul A B) i j
+  = sumf R r0 radd (fun e => rmul (snd e) (sm_get R r0 B (fst e) j)) (sm_row R A i).
+Proof. exact sm_mul_entry_l. Qed.
+Print Assumptions sm_mul_entry.
+
+(* sm_transpose_entry: entry (j, i) of M.T is entry (i, j) of M, for EVERY sparse matrix M (no sortedness needed) and every
+   column j below the number of columns given to the transpose. *)
+Theorem sm_transpose_entry : forall (R : Type) (r0 r1 : R) radd rmul rsub ropp,
+  ring_theory r0 r1 radd rmul rsub ropp eq ->
+  forall ncols (M : smat R) i j, N.to_nat j < ncols ->
+  sm_get R r0 (sm_transpose R ncols M) j i = sm_get R r0 M i j.
+Proof. exact sm_transpose_entry_l. Qed.
+Print Assumptions sm_transpose_entry.
